@@ -17,6 +17,9 @@ Oracle per faulted run (DESIGN C06):
  (4) a follow-up fault-free render equals the pristine output;
  (5) repeating the failing render 3x after a warm-up changes neither registry sizes nor the
      number of live Context / ComponentContext / Slot / Component objects (small programs).
+Interference: every program with <= 3 nodes is run through the whole fault enumeration again while every component's
+on_render_before / on_render_after hook first performs an unrelated Python-API render that succeeds or fails and is
+caught (mc/prog.py side_classes) - a finished / failed render nested inside the render under test.
 SEQ: all sequences <= 3 over {ok(p), fail(p,i)} for 4 programs x 2 fault indices.
 """
 from __future__ import annotations
@@ -27,7 +30,7 @@ import re
 import weakref
 
 from mc import boot, par
-from mc.prog import CompSpec, Harness, Program, label, print_nodes, strip_markers
+from mc.prog import SIDE_KINDS, SIDE_POS, CompSpec, Harness, Program, label, print_nodes, side_classes, strip_markers
 from mc.proggen import Gen, Profile
 from mc.progrun import core_of, prog_size, retuple
 
@@ -91,6 +94,23 @@ def make_spec(name, template):
 INSTANCES = []  # weakrefs to component instances created during the current case
 
 
+# interference dimension (mc/prog.py side_classes): when set to (pos, kind), every component's on_render_<pos> hook first performs
+# an unrelated Python-API render - itself a finished or a failed-and-caught render, nested inside the render under test
+SIDE_MODE = [None]
+SIDE_VARIANTS = tuple((pos, kind) for pos in SIDE_POS for kind in SIDE_KINDS)
+SIDE_VARIANTS_QUICK = (("before", "fail_child"), ("after", "fail_late"))
+SIDE_MAX_SIZE = 3
+
+
+def _side(pos):
+    sm = SIDE_MODE[0]
+    if sm and sm[0] == pos:
+        try:
+            side_classes()[sm[1]].render(render_dependencies=False)
+        except ValueError:
+            pass
+
+
 def build_classes(prog):
     """real Component subclasses whose callbacks tick the fault plan"""
     from django_components import Component
@@ -117,9 +137,11 @@ def build_classes(prog):
             return data
 
         def on_render_before(self, context, template):
+            _side("before")
             PLAN.tick("on_render_before")
 
         def on_render_after(self, context, template, content):
+            _side("after")
             PLAN.tick("on_render_after")
             return None
 
@@ -263,9 +285,20 @@ def live_counts():
     return c
 
 
-def check_program(prog, mode, agg, growth_max_size, payloads, sample=False):
+def check_program(prog, mode, agg, growth_max_size, payloads, sample=False, side=None):
     from mc.verif_tags import PLAN
 
+    SIDE_MODE[0] = side
+    try:
+        _check_program(prog, mode, agg, growth_max_size, payloads, sample, side)
+    finally:
+        SIDE_MODE[0] = None
+
+
+def _check_program(prog, mode, agg, growth_max_size, payloads, sample, side):
+    from mc.verif_tags import PLAN
+
+    stag = "" if not side else "side-%s-%s:" % side
     classes = build_classes(prog)
     size_ = prog_size_noticks(prog)
     hows = ["page"] + (["python"] if python_variant(prog) is not None else [])
@@ -291,9 +324,9 @@ def check_program(prog, mode, agg, growth_max_size, payloads, sample=False):
         boot.clear_render_registries()
 
         def fail(clause, what, target, pl):
-            agg.fail(f"{mode}:{how}:{clause}:{core_of(prog)}",
-                     f"[{mode}/{how}] fault at callback #{target} ({pl}): {what}",
-                     {"mode": mode, "how": how, "target": target, "payload": pl, "page": prog.page, "comps": {n: c.template for n, c in prog.comps.items() if n not in ('c', 'e')},
+            agg.fail(f"{mode}:{how}:{stag}{clause}:{core_of(prog)}",
+                     f"[{mode}/{how}{(', unrelated %s render inside every on_render_%s' % (side[1], side[0])) if side else ''}] fault at callback #{target} ({pl}): {what}",
+                     {"mode": mode, "how": how, "target": target, "payload": pl, "side": list(side) if side else None, "page": prog.page, "comps": {n: c.template for n, c in prog.comps.items() if n not in ('c', 'e')},
                       "program": {"page": r.src, "components": {n: c.source() for n, c in prog.comps.items()}}})
 
         targets = list(range(1, K + 1)) if not natural_error else [0]
@@ -374,7 +407,8 @@ def check_program(prog, mode, agg, growth_max_size, payloads, sample=False):
 
 def worker(w, W, payload):
     pfkw, N, skip, mode, extra = payload
-    growth_max_size, payloads = extra
+    growth_max_size, payloads, sides = extra
+    side_classes()
     boot.set_components_setting(context_behavior=mode)
     gen = Gen(Profile(**pfkw))
     agg = par.Agg()
@@ -390,6 +424,10 @@ def worker(w, W, payload):
         agg.states += 1
         agg.nontrivial += 1
         check_program(prog, mode, agg, growth_max_size, payloads, sample=(agg.states == 3 and w == 2))
+        if prog_size_noticks(prog) <= SIDE_MAX_SIZE:
+            for side in sides:
+                agg.expected["side:%s:%s" % side] += 1
+                check_program(prog, mode, agg, 0, 1, side=side)
     return agg
 
 
@@ -506,7 +544,7 @@ def run(ctx):
                "nodelist position) raising; non-trivial = every program (each has >= 1 callback). SEQ: all ok/fail histories <= 3 over 4 programs")
     from mc.progrun import run_parts
 
-    run_parts(ctx, worker, b["parts"], extra_payload=(b["growth_max_size"], b["payloads"]))
+    run_parts(ctx, worker, b["parts"], extra_payload=(b["growth_max_size"], b["payloads"], SIDE_VARIANTS if ctx.tier == "thorough" else SIDE_VARIANTS_QUICK))
     for mode, nseq, ntr, failures, nobs, nevents in par.run_tasks(hist_task, ["django", "isolated"]):
         ev.add_part(f"histories_{mode}", states=nseq, transitions=ntr, validated=ntr, nontrivial=nseq, observed_distinct=nobs,
                     bound={"depth": 3, "events": nevents}, samples=[{"mode": mode, "history": [[0, -1], [1, 1], [0, -1]]}])
@@ -534,7 +572,8 @@ def replay(ctx, case):
     print("page:", case["program"]["page"])
     for n, s in case["program"]["components"].items():
         print(f"comp {n}:", s)
-    check_program(prog, mode, agg, 9, 3)
+    side_classes()
+    check_program(prog, mode, agg, 9, 3, side=tuple(case["side"]) if case.get("side") else None)
     for f in agg.failures[:10]:
         print(f[0][:60], "::", f[1])
     return not agg.failures
